@@ -171,11 +171,11 @@ CLAIMED = {
          'returns a bounding element of the window; Embed is a lookup; masked positions cannot influence normalisation statistics, deviations from the mean sum to zero, running averages at momentum '
          '0 and 1; DenseGeneral / LinearGeneral as the contraction over flat row-major tensors (the order in which the contracted axes are written is irrelevant: kernel dimensions follow them in ascending order); which elements share their statistics: the model computes the reduction groups of a whole layer from the shape and the axes (row-major flat index <-> multi-index are inverse '
          'bijections; the groups partition the elements; LayerNorm / RMSNorm / InstanceNorm elements share a group iff they agree on every non-reduced axis; GroupNorm elements iff they are in the '
-         'same batch row and their channels (flat index mod C) lie in the same block of C/G channels); Dropout with the bits of the Bernoulli draw as a parameter (identity when deterministic or at rate 0, zero at rate 1, otherwise x_i / (1 - rate) where the mask bit of the broadcast position of i is set and 0 elsewhere; one mask serves every input; elements differing only along broadcast_dims share their bit; the position read lies inside the broadcast shape). Tied to /repo per run: every layer of the property (Dense, DenseGeneral, Einsum, Conv 1-D/2-D, ConvLocal, ConvTranspose, Embed, pooling, LayerNorm / RMSNorm / GroupNorm / '
+         'same batch row and their channels (flat index mod C) lie in the same block of C/G channels); Dropout with the bits of the Bernoulli draw as a parameter (identity when deterministic or at rate 0, zero at rate 1, otherwise x_i / (1 - rate) where the mask bit of the broadcast position of i is set and 0 elsewhere; one mask serves every input; elements differing only along broadcast_dims share their bit; the position read lies inside the broadcast shape); Einsum as the contraction over flat row-major tensors with numbered labels (every entry is the sum over the coordinates of the labels absent from the result of x times kernel at the label-addressed positions, plus the bias entry addressed by the result axes whose label occurs in the kernel; for ij,jk->ik it is the matrix product). Tied to /repo per run: every layer of the property (Dense, DenseGeneral, Einsum, Conv 1-D/2-D, ConvLocal, ConvTranspose, Embed, pooling, LayerNorm / RMSNorm / GroupNorm / '
          'InstanceNorm / BatchNorm, Dropout) in Linen and NNX with explicit integer parameters is compared with an independent numpy direct-sum reference and Linen with NNX; the modelled '
          'layers are also compared with the model in Coq, the outputs of LayerNorm / RMSNorm / GroupNorm / InstanceNorm included (square-root free: (y - b)^2 (var + eps) = s^2 (x - mean)^2 with the sign of s (x - mean), over the reduction groups the model derives from shape and axes).',
-    note='Trusted: Coq kernel, vm_compute, harness (numpy reference c12_ref.py), jaxcompat, float64 arithmetic of XLA on small integers. NOT proved / not modelled: Einsum axis '
-         'arithmetic, 2-D ConvTranspose, 3-D convolutions, ConvLocal, DenseGeneral batch_dims: oracle-only; Dropout: the mask bits are jax.random.bernoulli(key, 1 - rate, broadcast shape), drawn by the harness for the key passed as rng= and read off the output otherwise; for tensors above 256 elements the reduction groups of the normalisation layers are computed by the harness. Outputs at masked positions and windows '
+    note='Trusted: Coq kernel, vm_compute, harness (numpy reference c12_ref.py), jaxcompat, float64 arithmetic of XLA on small integers. NOT proved / not modelled: the expansion of ... in einsum equations (done by the harness as opt_einsum does), '
+         '2-D ConvTranspose, 3-D convolutions, ConvLocal, DenseGeneral batch_dims: oracle-only; Dropout: the mask bits are jax.random.bernoulli(key, 1 - rate, broadcast shape), drawn by the harness for the key passed as rng= and read off the output otherwise; for tensors above 256 elements the reduction groups of the normalisation layers are computed by the harness. Outputs at masked positions and windows '
          'entirely in the padding (0/0) are unspecified and compared as the code gives them. dtype promotion, precision, axis_name not covered. No axioms.',
     technique='Coq proof (index arithmetic of padding / strides, non-interference, rational statistics) + per-run correspondence by vm_compute + independent direct-sum reference on the real code',
     ref='DESIGN.md section 5, C12'),
